@@ -449,21 +449,26 @@ THOROUGH = QUICK + [("jq255e", 48, n, d) for n in (1, 8) for d in (0, 1, 63, 64,
 
 
 def run(tier, only=None):
+    from . import C09_ecdh as EC
     t0 = time.time()
     shapes = [s for s in (QUICK if tier == "quick" else THOROUGH) if not only or s[0] in only]
-    built = build(drivers(shapes), tag="C09-cut", cut=True)
+    eshapes = [s for s in (EC.QUICK if tier == "quick" else EC.THOROUGH) if not only or s[0] in only]
+    built = build(drivers(shapes) + EC.drivers(eshapes), tag="C09-cut", cut=True)
     timeout = 60 if tier == "quick" else 300
+    items = [("v", s) for s in shapes] + [("e", s) for s in eshapes]
 
-    def work(sh):
+    def work(it):
         T.reset()
-        return check_shape(built, sh, timeout)
-    res = pmap(work, shapes, nproc=NCPU, timeout=timeout * 20)
+        if it[0] == "v":
+            return check_shape(built, it[1], timeout)
+        return EC.check_shape(built, it[1], timeout)
+    res = pmap(work, items, nproc=NCPU, timeout=timeout * 20)
     obs = []
-    for sh, (st, val) in zip(shapes, res):
+    for it, (st, val) in zip(items, res):
         if st == "ok":
             obs.extend(val)
         else:
-            o = Obligation("default:%s.verify[sig=%d,name=%d,data=%d]" % sh, "L")
+            o = Obligation("default:%s.%s%s" % (it[1][0], "verify" if it[0] == "v" else "ECDH", list(it[1][1:])), "L")
             o.unknown("%s: %s" % (st, str(val)[-400:]))
             obs.append(o)
     built.close()
@@ -477,5 +482,5 @@ def run(tier, only=None):
                          "Point::encode": "fresh 32 bytes (C06)",
                          "Blake2s::process_block": "uninterpreted compression function (C17)"},
                   assumptions=["the stubs' contracts are decided by the checks named in `stubs`"],
-                  outside=["GLS254 (c0 + c1*mu multiplier variant)", "signing functions and ECDH key derivation glue: not posed",
+                  outside=["GLS254 signature verification (c0 + c1*mu multiplier variant)", "signing functions: not posed",
                            "that -Q is the group negation (C03): only 'derived from the decoded key alone' is checked structurally"])
